@@ -1745,7 +1745,9 @@ def main():
                 nfail += 1
                 last = probs
         if nfail == 3:
-            path = os.path.join(rdir, "found-%s.json" % runner.case_hash(fl["unit"]))
+            fdir = os.environ.get("VERIF_FOUND_DIR") or rdir
+            os.makedirs(fdir, exist_ok=True)
+            path = os.path.join(fdir, "found-%s.json" % runner.case_hash(fl["unit"]))
             with open(path, "w") as f:
                 json.dump({"property": PROP, "case": fl["unit"], "problems": last[:5], "seed": a.seed, "tier": a.tier,
                            "units_with_this_signature": sum(1 for x in failures if sig_key(x["problems"]) == k)}, f, indent=1, default=str)
